@@ -47,10 +47,10 @@ pub fn identifiers(sigma: &[char], l: usize) -> Vec<String> {
     out
 }
 
-pub const DICTIONARY: [&str; 44] = [
+pub const DICTIONARY: [&str; 47] = [
     "HTTPServer", "HttpServer", "XMLHttpRequest", "Hello2You", "IPv6Addr", "A", "AB", "Ab", "ABc", "ABcD", "X__Y", "X_y", "Foo_Bar", "FOO_BAR", "FooBarBaz", "Sha256Hash",
     "Utf8To16", "V1", "V1a", "A1B2", "Red", "DarkBlack", "BrightWhite", "MyHTTPSConnection", "I", "IO", "IOError", "Os2Warp", "B2b", "Abc123Def", "ABC123def", "Élan", "ÑandÚ",
-    "StraßeX", "Ünï", "TestMe_", "Test__Me", "T_", "Aa1_2b", "ZzTop", "NoOp", "PDFLoader2", "X86_64", "Armv7",
+    "StraßeX", "Ünï", "TestMe_", "Test__Me", "T_", "Aa1_2b", "ZzTop", "NoOp", "PDFLoader2", "X86_64", "Armv7", "Café2", "Straße2You", "Ünï3x",
 ];
 
 pub fn programs(tier: Tier) -> ProgramSet {
@@ -194,7 +194,8 @@ pub fn check_b(ctx: &mut Ctx, names: Vec<&'static str>, obs: Vec<(usize, &'stati
         let v = &spec.variants[i];
         ctx.transition();
         let explicit = v.to_string.is_some() || !v.serialize.is_empty();
-        let want: Vec<String> = if what == "get_serializations" { refsem::spellings(&spec, v) } else { vec![want_names[i].clone()] };
+        let want: Vec<String> = if what == "get_serializations" { refsem::as_set(&refsem::spellings(&spec, v)) } else { vec![want_names[i].clone()] };
+        let got = if what == "get_serializations" { refsem::as_set(&got) } else { got };
         let ok = ctx.expect_eq(&format!("recase-{}", what), &format!("{} under serialize_all = {:?} ({})", v.ident, st, what), &format!("{:?}", want), &format!("{:?}", got));
         if explicit {
             ctx.outcome("explicit-not-recased");
